@@ -153,17 +153,24 @@ class MultipartDecoder:
             re.MULTILINE,
         )
 
-    def last_newline(self) -> int:
-        try:
-            last_nl = self.buffer.rindex(b"\n")
-        except ValueError:
-            last_nl = len(self.buffer)
-        try:
-            last_cr = self.buffer.rindex(b"\r")
-        except ValueError:
-            last_cr = len(self.buffer)
-
-        return min(last_nl, last_cr)
+    def last_newline(self, limit: bool = True) -> int:
+        """
+        The index from which the end of the buffer may be the beginning of a
+        delimiter (a line break followed by a possibly incomplete boundary),
+        or `len(self.buffer)` if the end of the buffer cannot be one.
+        """
+        last_nl = self.buffer.rfind(b"\n")
+        last_cr = self.buffer.rfind(b"\r")
+        index = max(last_nl, last_cr)
+        if index == -1:
+            return len(self.buffer)
+        if last_cr >= 0 and last_cr == last_nl - 1:  # the last line break is CRLF
+            index = last_cr
+        # An incomplete delimiter is shorter than b"\r\n--" + boundary: do not
+        # hold back more than that, however long ago the last line break was.
+        if limit and len(self.buffer) - index > len(self.boundary) + 4:
+            return len(self.buffer)
+        return index
 
     def receive_data(self, data: Optional[bytes]) -> None:
         if data is None:
@@ -221,7 +228,9 @@ class MultipartDecoder:
                     data_length = match.start()
                     del_index = match.end()
                 else:
-                    data_length = del_index = self.last_newline()
+                    # The boundary is there but its line is not complete yet:
+                    # keep everything from the line break in front of it.
+                    data_length = del_index = self.last_newline(limit=False)
                 more_data = match is None
 
             data = bytes(self.buffer[:data_length])
